@@ -1772,7 +1772,7 @@ theorem C13_acquire_returns_after_run_source (k : Nat) (closed : Bool) (buffered
 
 /- non-vacuity: the grpc `Run` has two returns (the failed open, the end of `start`), both after the defer; three entries buffered -/
 example : closedAtReturn Gen.C13Src.grpcRunStmts 0 false = some true ∧ closedAtReturn Gen.C13Src.grpcRunStmts 1 false = some true ∧
-    closedAtReturn Gen.C13Src.grpcRunStmts 2 false = none := by decide
+    closedAtReturn Gen.C13Src.grpcRunStmts 3 false = none := by decide
 example : drainAfterRun 4 ⟨3, true⟩ = some 3 ∧ drainAfterRun 100 ⟨3, false⟩ = none := by decide
 
 end Pandora.Props.C13
